@@ -138,6 +138,14 @@ def gen_script(rng, maxlen):
         s.files[sub + cls + ".god"] = some_text(cls, rng, n)
     if rng.chance(1, 2):
         s.files["notes.txt"] = "not gold at all\n"
+    core_ws = rng.chance(1, 5)
+    if core_ws:
+        # "core" directories (WAM*, WF*): the server analyses their files in a start-up job of the pool while the
+        # first messages arrive — enough files for that job to overlap with the session's first saves / requests
+        for k in range(80):
+            s.files["WAMCore/wCore%d.god" % k] = good_text("wCore%d" % k, ("wCore%d" % (k - 1)) if k % 3 else None, [], 300 + k, rng)
+        for k in range(30):
+            s.files["sub/WFBase/wBase%d.god" % k] = good_text("wBase%d" % k, None, ["wCore%d" % k], 400 + k, rng)
     s.dirs = sorted({os.path.dirname(r) for r in s.files if os.path.dirname(r)} | {"emptydir"})
     # intermediate directories
     for d in list(s.dirs):
@@ -248,6 +256,11 @@ def gen_script(rng, maxlen):
         s.msgs.append({"k": "exit"})
     elif ending == "exit":
         s.msgs.append({"k": "exit"})
+    if core_ws:
+        # the session opens with saves (each re-indexes the workspace) and an analysis request, while the start-up job runs
+        first = sorted(r for r in s.files if r.endswith(".god") and "/w" not in r)[0]
+        s.msgs[0:0] = [{"k": "not", "method": "textDocument/didSave", "target": "F" + esc(first), "rewrite": None},
+                       {"k": "not", "method": "textDocument/didSave", "target": "F" + esc("WAMCore/wCore1.god"), "rewrite": None}]
     return s
 
 
